@@ -42,6 +42,15 @@ def gen_case(rng, tier):
         if rng.random() < 0.3:
             gadget = gadget[2:] + gadget[:2]          # source order is irrelevant
         stmts = stmts + gadget
+    if rng.random() < 0.12:
+        # a string whose escapes denote characters beyond one byte: the line is as long as its character count says, and the
+        # line behind it starts right there
+        text = rng.choice(['5\\u20ac', '\\u20acx', 'a\\u0100b\\u20ac', '\\xff\\u00e9'])
+        d = rng.choice(['.byte', '.cstr'])
+        st = {'k': 'str', 'raw': text, 'text': f'{d} "{text}"'}
+        if d == '.cstr':
+            st['term'] = 0
+        stmts = stmts + [st, {'k': 'data', 'w': 1, 'vals': [('num', 0x11), ('num', 0x22), ('num', 0x33)]}]
     nobin = rng.choice(['listing', 'intel_hex', 'hex']) if rng.random() < 0.2 else None
     return {'cfg': cfg, 'files': [stmts], 'start': 0, 'end': None, 'fill': 0, 'seed': rng.randrange(1 << 30), 'nobin': nobin}
 
